@@ -1,7 +1,8 @@
 (* C06 -- file store with a fallback push limit (NewWithFallbackLimit): refinement, no-op of the
    refusal, the limit is unobservable below it, nothing above it ever enters the fallback. *)
-From Oras Require Import Base.Prelude Model.Stores Model.StoresFileSpec Model.StoresFileLimit
+From Oras Require Import Base.Prelude Generated.GC06 Model.Stores Model.StoresFileSpec Model.StoresFileLimit
      Proofs.Stores Proofs.StoresFileSpec.
+From Coq Require String.
 
 Lemma runl_cons {S} (step : S -> op -> S * lout) s o h :
   runl step s (o :: h) =
@@ -158,3 +159,14 @@ Lemma file_limit_example :
              Exists (mkDesc 1 9 20 0); Fetch w_unnamed])
   = [LLimit; LOut (FO OOk); LOut (FO (OBool false)); LOut (FO (OBytes 1 5))].
 Proof. vm_compute. reflexivity. Qed.
+
+(* tie to the source (translator kind callguards, re-read on every run): LimitedStorage.Push
+   builds its error exactly under `expected.Size > ls.PushLimit` and reaches the wrapped
+   Storage.Push outside any condition (after that early return); file.Store.push reaches the
+   fallback storage exactly for descriptors without a name -- the three conjuncts of
+   [over_limit] (with IgnoreNoName returning earlier: call order file_push_calls) *)
+Lemma limit_guards_from_source :
+  limited_Push_guards = [(b "fmt.Errorf"%string, [b "expected.Size > ls.PushLimit"%string]);
+                         (b "ls.Storage.Push"%string, [])] /\
+  file_push_guards = [(b "s.fallbackStorage.Push"%string, [b "name == ''"%string])].
+Proof. split; reflexivity. Qed.
